@@ -98,6 +98,7 @@ type lexer struct {
 	prevCol   int
 	pos       ast.Pos
 	last      atomic.Value
+	started   bool // a token has been scanned
 }
 
 func newLexer(env *interp.ExecEnv, name string, r io.RuneScanner) *lexer {
@@ -886,6 +887,14 @@ Scan:
 }
 
 func (l *lexer) scanRawToken() int {
+	tok := l.scanRaw()
+	if tok > 0 && tok != '\n' {
+		l.started = true
+	}
+	return tok
+}
+
+func (l *lexer) scanRaw() int {
 	for {
 		r, err := l.read()
 		if err != nil {
@@ -975,13 +984,39 @@ func (l *lexer) scanRawToken() int {
 			return int(r)
 		case '#':
 			// comment
-			l.unread()
 			if l.lit(); len(l.word) != 0 {
+				l.unread()
 				return WORD
 			}
-			if !l.linebreak() {
-				return -1
+			if !l.started {
+				// nothing precedes the comment: skip it together with the
+				// following blank and comment lines
+				l.unread()
+				if !l.linebreak() {
+					return -1
+				}
+				continue
 			}
+			// a comment after the beginning of a command extends up to, but
+			// not including, the <newline>: that still ends the line
+			l.mark(-1)
+			for {
+				r, err := l.read()
+				if err != nil {
+					l.comment()
+					if err == io.EOF {
+						return 0
+					}
+					return -1
+				}
+				if r == '\n' {
+					l.unread()
+					l.comment()
+					break
+				}
+				l.b.WriteRune(r)
+			}
+			l.mark(0)
 		default:
 			l.b.WriteRune(r)
 		}
